@@ -64,6 +64,12 @@ func zzDefQuery(text string) (*query.Query, error) {
 		return &query.Query{Conditions: query.ConditionsSet{{zzTagCond("", "tag/a"), zzTagCond("", "tag/b")}}}, nil
 	case "cbytes:N:":
 		return &query.Query{Conditions: query.ConditionsSet{{zzNum(query.NumberConditionSummandTypeClientBytes, 1, -zzThreshold)}}}, nil
+	case "sport:443":
+		return &query.Query{Conditions: query.ConditionsSet{{zzNum(sp, 1, -443), zzNum(sp, -1, 443)}}}, nil
+	case "id:0:":
+		return &query.Query{Conditions: query.ConditionsSet{{zzNum(id, 1, 0)}}}, nil
+	case "service:web":
+		return &query.Query{Conditions: query.ConditionsSet{{zzTagCond("", "service/web")}}}, nil
 	case "sport:80":
 		return &query.Query{Conditions: query.ConditionsSet{{zzNum(sp, 1, -80), zzNum(sp, -1, 80)}}}, nil
 	case "tag:a tag:missing":
